@@ -541,6 +541,10 @@ pub mod verif_proto
         };
     }
 
+    /*  leaf p -> rule0 {a} */
+    proto_harness!(proto_build_min, 4, {
+        check_build(1, 1, [1, 1, 1], [[Spec::L(0), Spec::No], [Spec::No, Spec::No], [Spec::No, Spec::No]]);
+    });
     /*  leaf p -> rule0 {a,b} -> rule1 {c} (one of a/b) */
     proto_harness!(proto_build_chain2, 4, {
         check_build(2, 1, [2, 1, 1], [[Spec::L(0), Spec::No], [Spec::P(0), Spec::No], [Spec::No, Spec::No]]);
